@@ -94,12 +94,13 @@ class CircDichSpectrumBase(DFunction, EnergyUnitsManaged):
         length = om.shape[0]
         step = (omax-omin)/length
         
-        # new frequency axis
-        waxis = FrequencyAxis(omin, length, step)
+        # new frequency axis (the values are in internal units by now)
+        with energy_units("int"):
+            waxis = FrequencyAxis(omin, length, step)
         
-        # spline interpolation 
-        tck = interpolate.splrep(om, y, s=0)
-        ynew = interpolate.splev(waxis.data, tck, der=0)
+            # spline interpolation 
+            tck = interpolate.splrep(om, y, s=0)
+            ynew = interpolate.splev(waxis.data, tck, der=0)
         
         # setting the axis and data
         self.axis = waxis
